@@ -25,6 +25,7 @@ def plan_C01(ctx):
         run_family(ctx, "field_limit", 2, perfile=1)                            # 65535 fields: the 16-bit field id limit
     run_family(ctx, "match", n_of(ctx, 40, 400), perfile=20, seed_off=5)          # lookups of absent terms after DocsMatchingTerms (shared empty objects)
     run_family(ctx, "reuse", n_of(ctx, 60, 800), perfile=20, seed_off=6)          # absent terms looked up with recycled lists
+    run_family(ctx, "iter_walk", n_of(ctx, 60, 800), perfile=20, seed_off=7)      # every flag combination with Advance, exclusions and ReplaceActual on built segments
     canary(ctx)
 
 
@@ -567,6 +568,7 @@ def plan_C16(ctx):
     run_family(ctx, "merge_chain", n_of(ctx, 40, 600), perfile=10, seed_off=4)
     run_family(ctx, "big_freq", n_of(ctx, 8, 80), perfile=4)                      # sums beyond 2^32 / 2^35 / 2^36
     run_family(ctx, "fault_then_merge", n_of(ctx, 30, 400), perfile=10, seed_off=3)   # statistics of merges that follow abandoned ones
+    run_family(ctx, "stat_edges", n_of(ctx, 8, 32), perfile=2)                    # statistics equal to 127/128/129, 16383/16384/16385
     canary(ctx)
 
 
@@ -582,6 +584,7 @@ def plan_C17(ctx):
     run_family(ctx, "copy_boundary", n_of(ctx, 6, 60), perfile=2, seed_off=1)
     run_family(ctx, "merge_chain", n_of(ctx, 20, 300), perfile=10, seed_off=5)
     run_family(ctx, "block_drop", n_of(ctx, 16, 112), perfile=4)                 # deletions on the first/last slot of a stored block, all at once vs stepwise
+    run_family(ctx, "dv_walk", n_of(ctx, 8, 100), perfile=2, seed_off=6)           # doc-value chunk gaps in an input that is not the first
     canary(ctx)
 
 
